@@ -155,7 +155,9 @@ def run_noslot(case, ctx):
     try:
         d.add_file(G.to_coco(spec))
     except Exception as e:
-        if type(e).__name__ in ("VirtualFileValidationError", "ValueError"):
+        internal = {"IndexError", "KeyError", "AttributeError", "TypeError", "RecursionError", "ZeroDivisionError", "AssertionError", "NameError",
+                    "UnboundLocalError", "LookupError", "ArithmeticError"}
+        if not any(c.__module__ == "builtins" and c.__name__ in internal for c in type(e).__mro__):
             ctx.outcome("noslot-failed-cleanly")
             ctx.cell("noslot/%d" % case["free"])
             ctx.nontriv(case["id"])
